@@ -41,7 +41,7 @@ ASSUMPTIONS = [
 
 def budget(tier):
     if tier == 'thorough':
-        return {'seeds': 40000, 'chunk': 50, 'wall_cap': 1500, 'extra': {'big': True}}
+        return {'seeds': 24000, 'chunk': 40, 'wall_cap': 1500, 'extra': {'big': True}}
     return {'seeds': 1600, 'chunk': 20, 'wall_cap': 240, 'extra': None}
 
 
@@ -374,6 +374,20 @@ def run(plan, stats):
                 t3 = ' '.join(toks[:j] + [toks[j + 1], toks[j]] + toks[j + 2:])
                 case('\n'.join(phys[:i] + [t3] + phys[i + 1:]) + '\n',
                      {'kind': 'token_swap', 'line': i + 1, 'token': j, 'stmt': stmt_kind(t)})
+    # 6. malformed headers whose expression text also occurs EARLIER in the line, and blanked expressions
+    #    (the column must come from where the expression really starts, not from a text search)
+    headers = [i for i in stmt_lines if single_line.get(i) and stmt_kind(phys[i]) in ('if', 'elif', 'while', 'for')]
+    for i in frng.sample(headers, min(2, len(headers))):
+        t = phys[i]
+        kind = stmt_kind(t)
+        indent = t[:len(t) - len(t.lstrip())]
+        echo = {'if': 'if f f:', 'elif': 'elif f f:', 'while': 'while e e:', 'for': 'for a, b in a, b:'}[kind]
+        for variant, text in (('echo', indent + echo),
+                              ('blank', indent + {'for': 'for v in'}.get(kind, kind) + ' ' * frng.choice([2, 3, 7, 150]) + ':')):
+            span = expr_span(text)
+            case('\n'.join(phys[:i] + [text] + phys[i + 1:]) + '\n',
+                 {'kind': 'header_' + variant, 'line': i + 1, 'stmt': kind, 'expr_span': span, 'corrupted_line': text,
+                  'logical_number': phys_to_logical.get(i), 'outside': False})
     if lstat['breaks']:
         stats.probes['program_with_continued_lines'] += 1
     if any(len(t) > 120 for t in phys):
